@@ -339,8 +339,172 @@ pub fn case(cfg: &Cfg, r: &mut Rng, res: &mut CaseResult) {
     hooks::set_recording(false);
 }
 
+/// The application closes the connection while the channels are throttled: publishes that
+/// were accepted (the call returned Ok) before `Connection::close` was called are still to
+/// be transmitted, each exactly once and in order, in front of the Connection.Close.
+fn close_while_throttled(r: &mut Rng, res: &mut CaseResult) {
+    let bound = *r.pick(&[1usize, 2, 8, 16]);
+    let high = *r.pick(&[0usize, 1 << 10, 64 << 10]);
+    let low = *r.pick(&[0, high / 2]);
+    let npub = r.usize(1, 3);
+    let body = *r.pick(&[0usize, 100, 4000]);
+    let stalled = r.chance(3, 4);
+    let mut reflex = Reflex::default();
+    reflex.tune = (2047, 131072, 0);
+    let (mock, h) = new_mock(reflex);
+    let tuning = ConnectionTuning::default().mem_channel_bound(bound).buffered_writes_high_water(high).buffered_writes_low_water(low);
+    let open = run::spawn("open", move || Connection::insecure_open_stream(mock, session::default_opts(), tuning));
+    let mut conn = match open.join(W) {
+        J::Done(Ok(c)) => c,
+        _ => {
+            res.inconclusive("handshake");
+            return;
+        }
+    };
+    let mut chans = Vec::new();
+    for _ in 0..npub {
+        match conn.open_channel(None) {
+            Ok(c) => chans.push(c),
+            Err(e) => {
+                res.inconclusive(format!("open_channel: {}", ek(&e)));
+                return;
+            }
+        }
+    }
+    let ids: Vec<u16> = chans.iter().map(|c| c.channel_id()).collect();
+    if stalled {
+        h.with(|st| st.budget = 0);
+    }
+    // each publisher offers a limited number of messages; some block behind the stall
+    let offer = r.usize(1, 60);
+    let counters: Vec<Arc<AtomicU64>> = (0..npub).map(|_| Arc::new(AtomicU64::new(0))).collect();
+    let done: Vec<Arc<AtomicBool>> = (0..npub).map(|_| Arc::new(AtomicBool::new(false))).collect();
+    let mut tasks = Vec::new();
+    for (pi, ch) in chans.into_iter().enumerate() {
+        let (cnt, fin) = (counters[pi].clone(), done[pi].clone());
+        tasks.push(run::spawn(&format!("pub{}", pi), move || {
+            let mut accepted: Vec<Op> = Vec::new();
+            let mut in_flight: Option<Op> = None;
+            for k in 0..offer {
+                let op = Op::Publish { id: format!("q{:02}c{:06}", pi, k), len: body };
+                in_flight = Some(op.clone());
+                match ops::exec(&ch, &op) {
+                    Ok(()) => {
+                        accepted.push(op);
+                        in_flight = None;
+                        cnt.fetch_add(1, Ordering::SeqCst);
+                    }
+                    Err(_) => break,
+                }
+            }
+            fin.store(true, Ordering::SeqCst);
+            // the channel is not closed by its owner: the connection close ends it
+            std::mem::forget(ch);
+            (accepted, in_flight)
+        }));
+    }
+    // wait until every publisher has either finished or stopped making progress
+    let mut last: Vec<u64> = vec![u64::MAX; npub];
+    let mut stable_since = Instant::now();
+    let qdeadline = Instant::now() + Duration::from_secs(10);
+    loop {
+        std::thread::sleep(Duration::from_millis(5));
+        let now: Vec<u64> = counters.iter().map(|c| c.load(Ordering::SeqCst)).collect();
+        if done.iter().all(|d| d.load(Ordering::SeqCst)) {
+            break;
+        }
+        if now != last {
+            last = now;
+            stable_since = Instant::now();
+        } else if stable_since.elapsed() > Duration::from_millis(100) {
+            break;
+        }
+        if Instant::now() > qdeadline {
+            break;
+        }
+    }
+    // what has been accepted so far was accepted before the close is requested
+    let accepted_before: Vec<u64> = counters.iter().map(|c| c.load(Ordering::SeqCst)).collect();
+    res.obs("publishes_accepted_before_close", accepted_before.iter().sum());
+    let throttled = h.peek(|st| st.io_thread).map(|t| {
+        hooks::peek_events(t).iter().rev().find_map(|e| match e {
+            Ev::BatchEnd { channels_registered, .. } => Some(!*channels_registered),
+            _ => None,
+        })
+    });
+    if throttled == Some(Some(true)) {
+        res.obs("closes_while_throttled", 1);
+        res.tags.insert("close while throttled".into());
+    }
+    let t = run::spawn("close", move || conn.close());
+    if stalled {
+        std::thread::sleep(Duration::from_millis(r.range(1, 10)));
+        h.grant(usize::MAX);
+    }
+    match t.join(W) {
+        J::Done(Ok(())) => {}
+        J::Done(Err(e)) => res.violate("connection_failed", format!("Connection::close: {}", ek(&e))),
+        _ => {
+            res.violate("publisher_never_resumed", "Connection::close did not return after the transport started draining".to_string());
+            return;
+        }
+    }
+    let bytes = h.out_bytes();
+    let sp = wire::parse_client_stream(&bytes);
+    if sp.error.is_some() || sp.trailing != 0 {
+        res.violate("malformed_outbound_frame", format!("{:?} trailing {}", sp.error, sp.trailing));
+    }
+    for (pi, t) in tasks.iter().enumerate() {
+        match t.join(W) {
+            J::Done((accepted, _in_flight)) => {
+                // the first `accepted_before[pi]` publishes returned Ok before close() was called
+                let must: Vec<Item> = std::iter::once(Item::M("Channel.Open".into(), String::new())).chain(accepted.iter().take(accepted_before[pi] as usize).flat_map(ops::expect_items)).collect();
+                let got = ops::wire_items(&sp.frames, ids[pi]);
+                let ok = got.len() >= must.len() && got[..must.len()] == must[..];
+                if !ok {
+                    let first = got.iter().zip(must.iter()).position(|(a, b)| a != b).unwrap_or(got.len().min(must.len()));
+                    res.violate(
+                        "accepted_publish_lost_at_close",
+                        format!(
+                            "bound {} high-water {} body {} (stalled: {}): channel {}: {} publishes had returned Ok before Connection::close was called, the wire carries {} of their {} items; first difference at {}: {:?} vs {:?}",
+                            bound, high, body, stalled, ids[pi], accepted_before[pi], got.len().min(must.len()), must.len(), first, got.get(first), must.get(first)
+                        ),
+                    );
+                }
+                res.obs("frames_checked", got.len() as u64);
+            }
+            _ => res.violate("publisher_never_resumed", format!("publisher {} still blocked after the connection was closed", pi)),
+        }
+    }
+    match sp.frames.last().and_then(|f| f.method()) {
+        Some(amq_protocol::protocol::AMQPClass::Connection(amq_protocol::protocol::connection::AMQPMethod::Close(_))) => {}
+        _ => res.violate("stream_after_stall", format!("the last frame written is {:?}, not Connection.Close", sp.frames.last().map(|f| f.short()))),
+    }
+    for p in run::io_panics(&run::take_panics()) {
+        res.violate("io_thread_panic", format!("{} at {}", p.msg, p.loc));
+    }
+    res.sig = crate::rng::fnv_str(&format!("cwt{}{}{}{}{}{}", bound, high, low, npub, body, offer));
+    res.sample = Some(json!({"scenario": "Connection::close while publishes accepted earlier are still parked", "bound": bound, "high_water": high, "publishers": npub, "offered_each": offer, "transport_stalled": stalled}));
+}
+
 pub fn run(rc: &mut RunCtx) {
     let seed = rc.seed;
+    for i in 0..rc.n(64, 1500) {
+        let id = format!("close-throttled:{}", i);
+        if !rc.mine(&id) {
+            continue;
+        }
+        rc.begin(&id);
+        hooks::set_recording(true);
+        let mut res = CaseResult::new(id);
+        let mut r = Rng::for_case(seed, 18, 5_000_000 + i);
+        close_while_throttled(&mut r, &mut res);
+        hooks::set_recording(false);
+        if i % 16 != 0 && !res.is_violation() {
+            res.sample = None;
+        }
+        rc.end(res);
+    }
     // bound 0 is documented as legal: its own cases
     for i in 0..rc.n(1, 3) {
         let id = format!("bound0:{}", i);
